@@ -636,6 +636,17 @@ PLANS["X01"] = dict(
     )],
 )
 
+PLANS["X03"] = dict(
+    level_text="growth: which trust-policy file a configuration-based verifier is built from (file kinds, symlinks never followed, legacy fallback only for a missing oci file)",
+    level_note="not a listed property; unreadable files cannot be produced (the harness runs as root)", rule="8^3 directories x 4 operations", exhaustive=True,
+    phases=[dict(
+        name="policyfiles",
+        gen=dict(module="MC_PolicyFiles", cfg=mc_cfg(["Inv_RegularOnly", "Inv_ValidOnly", "Inv_Fallback", "Inv_Emit"]), select=take_all),
+        drive=dict(driver="policyfiles"),
+        validate=dict(module="Trace_PolicyFiles", cfg=trace_cfg()),
+    )],
+)
+
 PLANS["X02"] = dict(
     level_text="growth: unusable plugins incl. malformed plugin attributes fail closed", level_note="not a listed property", rule="24 maps x 12 situations", exhaustive=True,
     phases=[dict(
